@@ -748,7 +748,9 @@ func runC15(r *Run, rng *Rng, thorough bool) {
 		}
 	}
 	// (8) the token layer behind FromJSON: unmarshalKeys / skipValue alone, against the model of the two loops
-	jtokCases(r, rng, reps, 48)
+	jtokCases(r, rng, reps, 300)
+	// (9) tag options at the edge of the convention: both walks of a codec must read a tag the same way
+	oddTagCases(r, rng, reps)
 }
 
 // hasNonUTF8Text: a text value that JSON cannot carry unchanged (encoding/json substitutes U+FFFD)
